@@ -5,3 +5,5 @@ open GoMail.Props.C02
 #print axioms part_text_no_crlf
 #print axioms sanitized_name
 #print axioms one_field_per_header
+#print axioms format_name_roundtrip
+#print axioms address_phrase_safe
